@@ -236,7 +236,7 @@ def check_batch(nl, cases, ctx=None):
                 if why:
                     f = Fail(sig + ":independent", "%s: %s" % (src[:2000], why))
         if ctx is not None:
-            ctx.count(src, nontrivial(c), "%s:%s" % (c["t"], label))
+            ctx.count(src if len(src) < 4000 else "sha256:" + hashlib.sha256(src.encode()).hexdigest(), nontrivial(c), "%s:%s" % (c["t"], label))
             if i not in seen and nontrivial(c):
                 seen.add(i)
                 ctx.sample({k: (v if not isinstance(v, str) or len(v) < 200 else v[:200] + "...") for k, v in c.items()})
@@ -327,7 +327,7 @@ def s_cases(thorough):
     # incompressible data whose gzip form is longer than the decoder's internal buffers (tens of KiB and more)
     bigb = st.builds(lambda seed, n: {"t": "bytes", "gen": [seed, n]}, st.integers(0, 2 ** 32), st.sampled_from([20000, 33000, 40000, 66000, 100000, 140000] if not thorough else
                                                                                                  [20000, 33000, 40000, 66000, 100000, 140000, 300000]))
-    byts = st.one_of(byts, byts, byts, byts, bigb)
+    byts = st.one_of(*([byts] * (4 if not thorough else 24)), bigb)      # the big inputs dominate the cost: same absolute number in both tiers
     # characters that text-handling code likes to treat specially, at the start, inside and at the end of a string
     special = st.sampled_from(["\ufeff", "\ufffe", "\u0000", "\ufffd", "\u200b", "\u2028", "\u0085", "\r\n", "\ue000", "\ud7ff", "\U0010ffff", "\u0301", "\u202e", "\x7f", "\x80"])
     plain = st.text(alphabet=st.characters(blacklist_categories=("Cs",)), max_size=20)
@@ -340,5 +340,5 @@ def s_cases(thorough):
 
 
 def worker(ctx):
-    n = ctx.share(ctx.scale(1600, 60000))
+    n = ctx.share(ctx.scale(1600, 40000))
     ctx.hyp(st.lists(s_cases(ctx.thorough), min_size=12, max_size=12), lambda b: ctx.check("batch", b), n, label="c16")
